@@ -52,6 +52,16 @@ pub fn gen_surface(rng: &mut Rng, max: i32, allow_zero: bool, transparent_ok: bo
             return s;
         }
     };
+    if max >= 33 && rng.chance(1, 200) {
+        // now and then a surface longer than 1024 (sometimes 2048) pixels in one direction
+        // (chunked loops, fixed-size scratch rows, u16 coordinates, many sample rows)
+        let long = if rng.chance(1, 3) { rng.range(2049, 2600) } else { rng.range(1025, 1400) };
+        let short = rng.range(1, 2);
+        let (w, h) = if rng.chance(3, 4) { (long, short) } else { (short, long) };
+        let n = (w * h) as usize;
+        let pixels = if transparent_ok && rng.chance(1, 6) { vec![0; n] } else { busy_pixels(rng, n) };
+        return SurfSpec { w, h, pixels };
+    }
     let (w, h) = match rng.below(10) {
         0 if max >= 33 => (rng.range(34, 70), rng.range(1, 3)), // wide and flat: SIMD body and tail
         1 => {
@@ -231,15 +241,35 @@ pub fn gen_transform(rng: &mut Rng, w: i32, h: i32, allow_singular: bool) -> Mat
                 raqote::Transform::new(1., k, 0., 1., tx, ty)
             }
         }
-        0 | 1 => raqote::Transform::identity(),
+        0 => raqote::Transform::identity(),
+        1 => match rng.below(8) {
+            // invertible, but with a determinant far from 1 (device-space calls such as mask()
+            // and clear() still have to work; user-space geometry collapses or explodes)
+            0 => {
+                let s = (2.0f32).powi(-rng.range(10, 14));
+                raqote::Transform::scale(s, s)
+            }
+            // within rounding noise of the identity / of a whole-pixel translation, but not equal
+            1 => raqote::Transform::scale(1. + rng.f32_in(-1e-4, 1e-4), 1. + rng.f32_in(-1e-4, 1e-4))
+                .then_translate(euclid::vec2(rng.range(-3, 3) as f32 + rng.f32_in(-1e-4, 1e-4), rng.range(-3, 3) as f32)),
+            2 => raqote::Transform::rotation(euclid::Angle::radians(rng.f32_in(-1e-4, 1e-4))),
+            _ => raqote::Transform::identity(),
+        },
         2 => raqote::Transform::translation(rng.range(-(e as i32), e as i32) as f32, rng.range(-(e as i32), e as i32) as f32),
         3 => raqote::Transform::translation(rng.f32_in(-e, e), rng.f32_in(-e, e)),
         4 => raqote::Transform::scale(rng.f32_in(0.25, 3.), rng.f32_in(0.25, 3.)),
         5 => raqote::Transform::rotation(euclid::Angle::radians(rng.f32_in(-3.2, 3.2)))
             .then_translate(euclid::vec2(rng.f32_in(0., e), rng.f32_in(0., e))),
         6 => raqote::Transform::new(1., rng.f32_in(-1., 1.), rng.f32_in(-1., 1.), 1., 0., 0.),
-        7 => raqote::Transform::scale(if rng.chance(1, 2) { -1. } else { 1. }, if rng.chance(1, 2) { -1. } else { 1. })
-            .then_translate(euclid::vec2(rng.f32_in(0., e), rng.f32_in(0., e))),
+        7 => {
+            let t = raqote::Transform::scale(if rng.chance(1, 2) { -1. } else { 1. }, if rng.chance(1, 2) { -1. } else { 1. });
+            // mirrored, with a whole-pixel translation half of the time
+            if rng.chance(1, 2) {
+                t.then_translate(euclid::vec2(rng.range(0, e as i32) as f32, rng.range(0, e as i32) as f32))
+            } else {
+                t.then_translate(euclid::vec2(rng.f32_in(0., e), rng.f32_in(0., e)))
+            }
+        }
         8 | 9 => {
             let t = raqote::Transform::new(
                 rng.f32_in(-2., 2.),
@@ -372,7 +402,12 @@ pub fn gen_source(rng: &mut Rng, w: i32, h: i32, weights: &[u32; 6]) -> SrcSpec 
             let r2 = rng.f32_in(1., 1.5 * e);
             let r1 = rng.f32_in(0.1, r2 * 0.6);
             let d = (r2 - r1) * 0.6;
-            let c1 = [F(c2[0].0 + rng.f32_in(-d, d) * 0.7), F(c2[1].0 + rng.f32_in(-d, d) * 0.7)];
+            let c1 = if rng.chance(1, 3) {
+                // circles that are not nested: outside of the cone the gradient is transparent
+                p2(rng)
+            } else {
+                [F(c2[0].0 + rng.f32_in(-d, d) * 0.7), F(c2[1].0 + rng.f32_in(-d, d) * 0.7)]
+            };
             SrcKind::TwoCircle { stops: gen_stops(rng), spread: rng.below(3) as u8, c1, r1: F(r1), c2, r2: F(r2) }
         }
         _ => {
@@ -539,12 +574,18 @@ pub struct Emit {
     pub surfaces: Vec<SurfSpec>,
     pub steps: Vec<Step>,
     pub shadows: Vec<mk::Shadow>,
+    /// blend modes of the open layers of each surface, outermost first
+    pub layer_blends: Vec<Vec<u8>>,
+    /// extents of the open layers (clip rectangles in force at the push, on the surface)
+    pub layer_extents: Vec<Vec<[i32; 4]>>,
 }
 
 impl Emit {
     pub fn new(surfaces: Vec<SurfSpec>) -> Emit {
         let shadows = surfaces.iter().map(|_| mk::Shadow::new()).collect();
-        Emit { surfaces, steps: Vec::new(), shadows }
+        let layer_blends = surfaces.iter().map(|_| Vec::new()).collect();
+        let layer_extents = surfaces.iter().map(|_| Vec::new()).collect();
+        Emit { surfaces, steps: Vec::new(), shadows, layer_blends, layer_extents }
     }
 
     pub fn dims(&self, s: usize) -> (i32, i32) {
@@ -561,7 +602,17 @@ impl Emit {
             Op::SetTransform(m) => sh.ctm = *m,
             Op::PushClipRect(r) => sh.brackets.push((mk::Bracket::ClipRect(*r), sh.ctm)),
             Op::PushClip(p) => sh.brackets.push((mk::Bracket::ClipPath(p.clone()), sh.ctm)),
-            Op::PushLayer { .. } => sh.brackets.push((mk::Bracket::Layer, sh.ctm)),
+            Op::PushLayer { blend, plain, .. } => {
+                let mut ext = [0, 0, self.surfaces[surf].w, self.surfaces[surf].h];
+                for b in &sh.brackets {
+                    if let mk::Bracket::ClipRect(r) = &b.0 {
+                        ext = [ext[0].max(r[0]), ext[1].max(r[1]), ext[2].min(r[2]), ext[3].min(r[3])];
+                    }
+                }
+                self.layer_extents[surf].push(ext);
+                sh.brackets.push((mk::Bracket::Layer, sh.ctm));
+                self.layer_blends[surf].push(if *plain { BLEND_SRC_OVER } else { *blend });
+            }
             Op::PopClip => {
                 if let Some(i) = sh.brackets.iter().rposition(|b| !matches!(b.0, mk::Bracket::Layer)) {
                     sh.brackets.remove(i);
@@ -570,6 +621,8 @@ impl Emit {
             Op::PopLayer => {
                 if let Some(i) = sh.brackets.iter().rposition(|b| matches!(b.0, mk::Bracket::Layer)) {
                     sh.brackets.remove(i);
+                    self.layer_blends[surf].pop();
+                    self.layer_extents[surf].pop();
                 }
             }
             _ => {}
@@ -623,6 +676,66 @@ impl Emit {
             }
         }
         self.close_one(surf);
+    }
+
+    /// A pop that does not respect the nesting of the two stacks: the most recent clip although
+    /// layers were pushed after it (only if every such layer has a blend mode under which a
+    /// transparent group pixel leaves the destination alone - then the statement of C06
+    /// determines the outcome), or the innermost layer although clips were pushed inside it.
+    pub fn nonlifo_pop(&mut self, surf: usize) {
+        let b = &self.shadows[surf].brackets;
+        let preserving = |m: u8| m < 24 && [0x00000000u32, 0xff102030, 0x80402010, 0x01000001].iter().all(|d| crate::kernel::blend_px(m, 0, *d) == *d);
+        match b.last() {
+            Some((mk::Bracket::Layer, _)) => {
+                if let Some(ci) = b.iter().rposition(|x| !matches!(x.0, mk::Bracket::Layer)) {
+                    let layers_above = b[ci + 1..].len();
+                    let blends = &self.layer_blends[surf];
+                    if blends.len() >= layers_above && blends[blends.len() - layers_above..].iter().all(|m| preserving(*m)) {
+                        self.push(surf, Op::PopClip);
+                        return;
+                    }
+                }
+                self.close_one(surf);
+            }
+            Some(_) => {
+                if b.iter().any(|x| matches!(x.0, mk::Bracket::Layer)) {
+                    self.push(surf, Op::PopLayer);
+                } else {
+                    self.close_one(surf);
+                }
+            }
+            None => {}
+        }
+    }
+
+    /// Replaces the clip rectangle under which the innermost layer was pushed by another one
+    /// while the layer stays open (pop_clip; push_clip_rect): the layer keeps its extent.
+    /// Returns false if the state does not allow it.
+    pub fn replace_clip_under_layer(&mut self, rng: &mut Rng, surf: usize) -> bool {
+        let (w, h) = self.dims(surf);
+        let b = &self.shadows[surf].brackets;
+        let n = b.len();
+        let preserving = |m: u8| m < 24 && [0x00000000u32, 0xff102030, 0x80402010, 0x01000001].iter().all(|d| crate::kernel::blend_px(m, 0, *d) == *d);
+        if n < 2 || !matches!(b[n - 1].0, mk::Bracket::Layer) || !matches!(b[n - 2].0, mk::Bracket::ClipRect(_)) {
+            return false;
+        }
+        match self.layer_blends[surf].last() {
+            Some(m) if preserving(*m) => {}
+            _ => return false,
+        }
+        let e = *self.layer_extents[surf].last().unwrap();
+        let r = if e[2] > e[0] && e[3] > e[1] && rng.chance(2, 3) {
+            // as large as the layer, somewhere else on the surface
+            let (ew, eh) = (e[2] - e[0], e[3] - e[1]);
+            let x = rng.range(0, (w - ew).max(0));
+            let y = rng.range(0, (h - eh).max(0));
+            [x, y, x + ew, y + eh]
+        } else {
+            gen_clip_rect(rng, w, h)
+        };
+        self.push(surf, Op::PopClip);
+        self.push(surf, Op::PushClipRect(r));
+        true
     }
 
     pub fn close_all(&mut self) {
@@ -991,9 +1104,17 @@ pub fn gen_clip_path(rng: &mut Rng, w: i32, h: i32, aligned: bool) -> PathSpec {
     if aligned {
         let x = rng.range(-1, w);
         let y = rng.range(-1, h);
+        // pixel aligned, either orientation (a negative width or height describes the same box)
+        let (rw, rh) = (rng.range(0, w + 1), rng.range(0, h + 1));
+        let (fx, fy) = (rng.chance(1, 4), rng.chance(1, 4));
         return PathSpec::new(
             false,
-            vec![Seg::Rect(F(x as f32), F(y as f32), F(rng.range(0, w + 1) as f32), F(rng.range(0, h + 1) as f32))],
+            vec![Seg::Rect(
+                F((if fx { x + rw } else { x }) as f32),
+                F((if fy { y + rh } else { y }) as f32),
+                F((if fx { -rw } else { rw }) as f32),
+                F((if fy { -rh } else { rh }) as f32),
+            )],
         );
     }
     match rng.below(8) {
@@ -1021,11 +1142,33 @@ pub fn gen_scene(rng: &mut Rng, em: &mut Emit, surf: usize, cfg: &SceneCfg) {
         // perturbations are biased to land right after a state change
         let p_nop = if after_state_change { cfg.p_nop * 3 } else { cfg.p_nop };
         after_state_change = false;
-        if hit(cfg.p_clip) && clip_depth < cfg.max_clip {
+        if cfg.early_clip_pop && layer_depth > 0 && rng.chance(1, 12) && em.replace_clip_under_layer(rng, surf) {
+            after_state_change = true;
+        } else if hit(cfg.p_clip) && clip_depth < cfg.max_clip {
             if rng.chance(1, 2) {
-                em.push(surf, Op::PushClipRect(gen_clip_rect(rng, w, h)));
+                // inside a layer: now and then a rectangle exactly as large as the layer, shifted
+                let r = match em.layer_extents[surf].last() {
+                    Some(e) if e[2] > e[0] && e[3] > e[1] && rng.chance(1, 4) => {
+                        let (dx, dy) = (rng.range(-3, 3), rng.range(-3, 3));
+                        [e[0] + dx, e[1] + dy, e[2] + dx, e[3] + dy]
+                    }
+                    _ => gen_clip_rect(rng, w, h),
+                };
+                em.push(surf, Op::PushClipRect(r));
             } else {
-                em.push(surf, Op::PushClip(gen_clip_path(rng, w, h, cfg.aligned_clip_paths)));
+                // the very same path object as an earlier clip or fill now and then (anything
+                // remembered between calls must not be keyed on the path alone)
+                let earlier: Vec<PathSpec> = em
+                    .steps
+                    .iter()
+                    .filter_map(|s| match &s.op {
+                        Op::PushClip(p) => Some(p.clone()),
+                        Op::Fill { path, .. } if !s.is_nop() => Some(path.clone()),
+                        _ => None,
+                    })
+                    .collect();
+                let p = if !earlier.is_empty() && rng.chance(1, 4) { earlier[rng.usize(earlier.len())].clone() } else { gen_clip_path(rng, w, h, cfg.aligned_clip_paths) };
+                em.push(surf, Op::PushClip(p));
             }
             after_state_change = true;
         } else if hit(cfg.p_layer) && layer_depth < cfg.max_layer {
@@ -1040,7 +1183,11 @@ pub fn gen_scene(rng: &mut Rng, em: &mut Emit, surf: usize, cfg: &SceneCfg) {
             after_state_change = true;
         } else if hit(cfg.p_pop) && open > 0 {
             if cfg.early_clip_pop && rng.chance(1, 4) {
-                em.early_clip_pop(surf);
+                if rng.chance(1, 2) {
+                    em.early_clip_pop(surf);
+                } else {
+                    em.nonlifo_pop(surf);
+                }
             } else {
                 em.close_one(surf);
             }
@@ -1056,7 +1203,9 @@ pub fn gen_scene(rng: &mut Rng, em: &mut Emit, surf: usize, cfg: &SceneCfg) {
         } else if hit(cfg.p_resync) && layer_depth == 0 {
             em.push(surf, Op::Resync);
         } else {
-            let op = gen_draw(rng, w, h, &cfg.draw);
+            // an exact repetition of an earlier drawing call now and then
+            let earlier: Vec<usize> = em.steps.iter().enumerate().filter(|(_, s)| s.surf == surf && !s.is_nop() && s.op.is_draw() && !matches!(s.op, Op::PopLayer)).map(|(i, _)| i).collect();
+            let op = if !earlier.is_empty() && rng.chance(1, 12) { em.steps[earlier[rng.usize(earlier.len())]].op.clone() } else { gen_draw(rng, w, h, &cfg.draw) };
             em.push(surf, op);
         }
     }
